@@ -6,12 +6,9 @@ Local Open Scope N_scope.
 
 Definition singular (c : fcard) : bool := match c with CImplicit | COptional | CRequired => true | _ => false end.
 Definition single_card (c : fcard) : bool := match c with CImplicit | COptional | CRequired | COneof _ => true | _ => false end.
-Definition nz_field (fd : fdesc) (y : gval) : bool :=
-  match fcard_ fd, fkind_ fd, y with
-  | CImplicit, FNum KFloat, GNum z => negb (z =? 2147483648)%Z
-  | CImplicit, FNum KDouble, GNum z => negb (z =? 9223372036854775808)%Z
-  | _, _, _ => true
-  end.
+(* (historic: the side condition "no proto3 float holds -0.0" of finding G6, repaired in the code; kept as a
+   trivially true predicate so that the lemma interfaces stay as they were) *)
+Definition nz_field (fd : fdesc) (y : gval) : bool := true.
 Definition rawf (f : rfield) : rfield * list byte := (f, renc f).
 
 Lemma enc_key_pos tag wt : (1 <= length (enc_key tag wt))%nat.
@@ -185,11 +182,7 @@ Qed.
 Lemma zero_like_nz fd z : fcard_ fd = CImplicit -> zero_like (fkind_ fd) z = true ->
   nz_field fd (GNum z) = true -> z = 0%Z.
 Proof.
-  unfold nz_field. intros Hc. rewrite Hc. unfold zero_like.
-  destruct (fkind_ fd) as [s| | | |t]; try (intros H _; apply Z.eqb_eq; exact H).
-  destruct s; try (intros H _; apply Z.eqb_eq; exact H);
-    intros H Hn; apply orb_prop in H; destruct H as [H|H]; try (apply Z.eqb_eq; exact H);
-    rewrite H in Hn; discriminate Hn.
+  intros _ H _. unfold zero_like in H. apply Z.eqb_eq. exact H.
 Qed.
 
 Lemma rel_absent fd y : singular (fcard_ fd) = true -> present fd y = false ->
